@@ -148,7 +148,7 @@ impl Property for C08 {
         40_000
     }
     fn random_cases(&self, tier: Tier) -> u64 {
-        tier.pick(20_000, 400_000)
+        tier.pick(60_000, 400_000)
     }
     fn run(&self, t: &mut Tape, ctx: &mut CaseCtx) -> Verdict {
         let job = gen_job(t);
